@@ -191,3 +191,253 @@ def resolve(fn, e, pos, depth=0):
     if k == "asg" and e.get("op") == "=":
         return resolve(fn, e["rhs"], pos, depth + 1)
     return e
+
+
+def nz_edges(fn, match):
+    """{block: succ index on which the matched sub-expression is non-zero}.  Knows X, !X, X != 0, X == 0, X > 0
+    (unsigned), 0 < X, X >= 1."""
+    out = {}
+    for b in fn.blocks.values():
+        if not b.term or len(b.succs) != 2:
+            continue
+        c = fn.cond(b.id)
+        if c is None:
+            continue
+        t = truth_of(c, match)
+        if t:
+            out[b.id] = 0 if t > 0 else 1
+            continue
+        c = resolve(fn, c, (b.id, len(b.elems)))
+        t = truth_of(c, match)
+        if t:
+            out[b.id] = 0 if t > 0 else 1
+            continue
+        neg = 0
+        while c is not None and c.get("k") == "un" and c.get("op") == "!":
+            c = c["e"]
+            neg ^= 1
+        if c is None or c.get("k") != "bin":
+            continue
+        op, l, r = c["op"], c["lhs"], c["rhs"]
+        if match(l) and ((op == ">" and const_of(r) == 0) or (op == ">=" and const_of(r) == 1)):
+            out[b.id] = 0 ^ neg
+        elif match(r) and ((op == "<" and const_of(l) == 0) or (op == "<=" and const_of(l) == 1)):
+            out[b.id] = 0 ^ neg
+        elif match(l) and ((op == "<=" and const_of(r) == 0) or (op == "<" and const_of(r) == 1)):
+            out[b.id] = 1 ^ neg
+    return out
+
+
+_FLIP = {">": "<", "<": ">", ">=": "<=", "<=": ">=", "==": "==", "!=": "!="}
+_NEG = {">": "<=", "<=": ">", "<": ">=", ">=": "<", "==": "!=", "!=": "=="}
+
+
+def rel_edges(fn, lm, rm, rel):
+    """{block: succ index on which `L rel R` holds} for branch conditions that compare an expression selected by lm with one
+    selected by rm, in any equivalent spelling: operands swapped, condition negated, operands held in single-assignment
+    temporaries"""
+    out = {}
+    for b in fn.blocks.values():
+        if not b.term or len(b.succs) != 2:
+            continue
+        c = fn.cond(b.id)
+        if c is None:
+            continue
+        c = resolve(fn, c, (b.id, len(b.elems)))
+        neg = 0
+        while c is not None and c.get("k") == "un" and c.get("op") == "!":
+            c = c["e"]
+            neg ^= 1
+        if c is None or c.get("k") != "bin" or c.get("op") not in _FLIP:
+            continue
+        op = c["op"]
+        if lm(c["lhs"]) and rm(c["rhs"]):
+            pass
+        elif lm(c["rhs"]) and rm(c["lhs"]):
+            op = _FLIP[op]
+        else:
+            continue
+        if op == rel:
+            out[b.id] = 0 ^ neg
+        elif op == _NEG[rel]:
+            out[b.id] = 1 ^ neg
+    return out
+
+
+
+def value_known_edges(fn, var, names=(), values=()):
+    """edges (block, succ index) on which the local `var` is known to equal one of the given enumerators / integers:
+    true edges of `var == K`, false edges of `var != K` (also with the assignment inside the condition), and the edges
+    from a switch over `var` to its `case K:` blocks.  The same facts whether the code is a switch or an if-chain."""
+    names, values = set(names), set(values)
+
+    def is_k(n):
+        if n is None:
+            return False
+        if n.get("k") == "enum" and (n.get("n") in names or n.get("cv") in values):
+            return True
+        return n.get("k") == "int" and const_of(n) in values
+
+    def is_v(n):
+        while n is not None and n.get("k") == "asg" and n.get("op") == "=":
+            n = n["lhs"]
+        return n is not None and n.get("k") == "var" and n["n"] == var
+    out = set()
+    for b in fn.blocks.values():
+        if not b.term:
+            continue
+        c = fn.cond(b.id)
+        if c is None:
+            continue
+        if len(b.succs) == 2 and b.term.get("kind") != "SwitchStmt":
+            neg = 0
+            while c.get("k") == "un" and c.get("op") == "!":
+                c, neg = c["e"], neg ^ 1
+            if c.get("k") == "bin" and c["op"] in ("==", "!="):
+                l, r_ = c["lhs"], c["rhs"]
+                if (is_v(l) and is_k(r_)) or (is_v(r_) and is_k(l)):
+                    k = 0 if c["op"] == "==" else 1
+                    out.add((b.id, k ^ neg))
+            elif is_v(c) and 0 in values:
+                out.add((b.id, 1 ^ neg))      # `if (rv)` : the false edge has rv == 0
+        if is_v(c) or b.term.get("kind") == "SwitchStmt":
+            if not is_v(c):
+                continue
+            for k, s in enumerate(b.succs):
+                if s is None:
+                    continue
+                lb = fn.blocks[s].label
+                if lb and lb.get("kind") == "case":
+                    v = lb.get("v") or {}
+                    if is_k(v) or (lb.get("cv") in values):
+                        out.add((b.id, k))
+    return out
+
+
+
+def flag_vars(fn):
+    """locals that only ever receive integer/boolean constants and whose address is never taken: their value along a
+    path is known after the first assignment"""
+    cand, bad = {}, set()
+    for s in fn.sites():
+        n = s.node
+        if n.get("k") == "asg" and n["lhs"].get("k") == "var":
+            v = n["lhs"]["n"]
+            c = const_of(fn.expand(n["rhs"])) if n.get("op") == "=" else None
+            if c is None:
+                bad.add(v)
+            else:
+                cand.setdefault(v, set()).add(c)
+        elif n.get("k") == "un" and n.get("op") in ("&", "++", "--") and n["e"].get("k") == "var":
+            bad.add(n["e"]["n"])
+        elif n.get("k") == "decls":
+            for d in n["d"]:
+                if d.get("init") is not None:
+                    c = const_of(fn.expand(d["init"]))
+                    if c is None:
+                        bad.add(d["n"])
+                    else:
+                        cand.setdefault(d["n"], set()).add(c)
+    params = {p["n"] for p in fn.params}
+    return {v for v in cand if v not in bad and v not in params}
+
+
+def reach_flags(fn, start, blocked=None, edge_ok=None):
+    """forward reachability like Function.reach, but paths that contradict the value a constant-only local flag was
+    given earlier on the same path are not followed (rearm = true; ... if (rearm) ...)"""
+    from collections import deque
+    flags = flag_vars(fn)
+    if not flags:
+        return fn.reach(start, blocked=blocked, edge_ok=edge_ok)
+    seen = set()
+    out = set()
+    work = deque([(start[0], start[1], frozenset())])
+
+    def upd(env, e):
+        env = dict(env)
+        for n in walk(fn.expand(e)):
+            if n.get("k") == "asg" and n.get("op") == "=" and n["lhs"].get("k") == "var" and n["lhs"]["n"] in flags:
+                env[n["lhs"]["n"]] = const_of(fn.expand(n["rhs"]))
+            elif n.get("k") == "decls":
+                for d in n["d"]:
+                    if d["n"] in flags and d.get("init") is not None:
+                        env[d["n"]] = const_of(fn.expand(d["init"]))
+        return frozenset(env.items())
+
+    def edge_consistent(b, k, env):
+        c = fn.cond(b)
+        if c is None or len(fn.blocks[b].succs) != 2:
+            return True
+        env = dict(env)
+        neg = 0
+        while c.get("k") == "un" and c.get("op") == "!":
+            c, neg = c["e"], neg ^ 1
+        val = None
+        if c.get("k") == "var" and c["n"] in env:
+            val = bool(env[c["n"]])
+        elif c.get("k") == "bin" and c["op"] in ("==", "!=") and c["lhs"].get("k") == "var" and c["lhs"]["n"] in env and \
+                const_of(c["rhs"]) is not None:
+            val = (env[c["lhs"]["n"]] == const_of(c["rhs"])) == (c["op"] == "==")
+        if val is None:
+            return True
+        if neg:
+            val = not val
+        return (k == 0) == val
+    while work:
+        b, i, env = work.popleft()
+        blk = fn.blocks[b]
+        while True:
+            if (b, i, env) in seen:
+                break
+            seen.add((b, i, env))
+            if i < len(blk.elems):
+                if blocked and blocked(b, i, blk.elems[i]):
+                    break
+                out.add((b, i))
+                if blk.elems[i] is not None:
+                    env = upd(env, blk.elems[i])
+                i += 1
+                continue
+            out.add((b, i))
+            for k, s in enumerate(blk.succs):
+                if s is None or (edge_ok and not edge_ok(b, k)) or not edge_consistent(b, k, env):
+                    continue
+                work.append((s, 0, env))
+            break
+    return out
+
+
+
+def implied_atoms(c, truth=True, depth=0):
+    """atomic sub-conditions whose truth value is fixed when the boolean formula c has the given truth value:
+    [(atom, bool)].  !X flips, X && Y (true) and X || Y (false) distribute; anything else is an atom."""
+    if c is None or depth > 40:
+        return []
+    k = c.get("k")
+    if k == "un" and c.get("op") == "!":
+        return implied_atoms(c["e"], not truth, depth + 1)
+    if k == "bin" and ((c["op"] == "&&" and truth) or (c["op"] == "||" and not truth)):
+        return implied_atoms(c["lhs"], truth, depth + 1) + implied_atoms(c["rhs"], truth, depth + 1)
+    if k == "bin" and c["op"] in ("&&", "||"):
+        return []
+    if k == "asg" and c.get("op") == "=":
+        return implied_atoms(c["rhs"], truth, depth + 1)
+    if k == "cast":
+        return implied_atoms(c["e"], truth, depth + 1)
+    return [(c, truth)]
+
+
+def edge_facts(fn):
+    """[(block, succ index, atom, bool)] for every two-way branch: what each edge establishes"""
+    out = []
+    for b in fn.blocks.values():
+        if not b.term or len(b.succs) != 2:
+            continue
+        c = fn.cond(b.id)
+        if c is None:
+            continue
+        c = resolve(fn, c, (b.id, len(b.elems)))
+        for k in (0, 1):
+            for atom, val in implied_atoms(c, k == 0):
+                out.append((b.id, k, atom, val))
+    return out
